@@ -17,6 +17,10 @@
 (*   pc, idx       "idle" | "scan" and the scan position                     *)
 (*   early         the variant: early-out inside the loop when nothing is    *)
 (*                 ready (tuple join, merge, zip) or only before it (array)  *)
+(*   needPoll      the consumer is about to poll again on its own: the last  *)
+(*                 poll returned an item (merge / StreamGroup re-arm the     *)
+(*                 input's bit without waking anybody; zip sets all bits     *)
+(*                 after a row) or the owner just inserted into a group      *)
 (***************************************************************************)
 EXTENDS Integers, FiniteSets
 
@@ -40,7 +44,9 @@ VARIABLES
   \* @type: Str;
   pc,
   \* @type: Int;
-  idx
+  idx,
+  \* @type: Bool;
+  needPoll
 
 MaxN == 5
 All == 0..4                       \* (Apalache wants constant ranges: slots >= N exist but are never used)
@@ -52,12 +58,12 @@ Init ==
   /\ bits = [i \in All |-> i < N]
   /\ count = N
   /\ parent = -1 /\ gen = -1 /\ woken = FALSE
-  /\ pc = "idle" /\ idx = 0
+  /\ pc = "idle" /\ idx = 0 /\ needPoll = FALSE
 
 \* poll(): set_waker(cx.waker()); `!any_ready()` early-out; else scan from the first child
 PollBegin ==
   /\ pc = "idle"
-  /\ gen' = gen + 1 /\ parent' = gen + 1 /\ woken' = FALSE
+  /\ gen' = gen + 1 /\ parent' = gen + 1 /\ woken' = FALSE /\ needPoll' = FALSE
   /\ IF count = 0 THEN pc' = "idle" /\ idx' = idx ELSE pc' = "scan" /\ idx' = 0
   /\ UNCHANGED <<bits, count>>
 
@@ -69,13 +75,37 @@ ScanStep ==
   /\ bits' = [bits EXCEPT ![idx] = FALSE]
   /\ count' = IF bits[idx] THEN count - 1 ELSE count
   /\ idx' = idx + 1
-  /\ UNCHANGED <<parent, gen, woken, pc>>
+  /\ UNCHANGED <<parent, gen, woken, pc, needPoll>>
+
+\* the child polled at idx yields an item (merge, StreamGroup): its bit is set again without waking the parent,
+\* the poll returns the item, the consumer polls again
+YieldItem ==
+  /\ pc = "scan" /\ idx < N /\ bits[idx]
+  /\ ~(Early /\ count = 0)
+  /\ pc' = "idle" /\ needPoll' = TRUE
+  /\ UNCHANGED <<bits, count, parent, gen, woken, idx>>
+
+\* zip completed a row: set_all_ready, return the row
+RowDone ==
+  /\ pc = "scan"
+  /\ bits' = [i \in All |-> i < N] /\ count' = N
+  /\ pc' = "idle" /\ needPoll' = TRUE
+  /\ UNCHANGED <<parent, gen, woken, idx>>
+
+\* the owner of a group inserts a member into slot i between polls: set_ready(i) without waking anybody;
+\* the owner holds `&mut` to the group, i.e. it is the consumer task and polls again
+Insert(i) ==
+  /\ pc = "idle"
+  /\ bits' = [bits EXCEPT ![i] = TRUE]
+  /\ count' = IF bits[i] THEN count ELSE count + 1
+  /\ needPoll' = TRUE
+  /\ UNCHANGED <<parent, gen, woken, pc, idx>>
 
 \* end of the loop, or the in-loop early-out: Poll::Pending
 ScanEnd ==
   /\ pc = "scan" /\ (idx = N \/ (Early /\ count = 0))
   /\ pc' = "idle"
-  /\ UNCHANGED <<bits, count, parent, gen, woken, idx>>
+  /\ UNCHANGED <<bits, count, parent, gen, woken, idx, needPoll>>
 
 \* InlineWaker::wake for child i (any waker ever handed out: they all share the child's id), from any thread,
 \* at any time after the first poll: set_ready(i); if the bit was clear, wake the stored parent waker
@@ -86,9 +116,9 @@ Wake(i) ==
        ELSE /\ bits' = [bits EXCEPT ![i] = TRUE]
             /\ count' = count + 1
             /\ woken' = (woken \/ parent = gen)
-  /\ UNCHANGED <<parent, gen, pc, idx>>
+  /\ UNCHANGED <<parent, gen, pc, idx, needPoll>>
 
-Next == PollBegin \/ ScanStep \/ ScanEnd \/ \E i \in Ch : Wake(i)
+Next == PollBegin \/ ScanStep \/ ScanEnd \/ YieldItem \/ RowDone \/ (\E i \in Ch : Wake(i)) \/ (\E i \in Ch : Insert(i))
 
 ---------------------------------------------------------------------------
 SetBits == {i \in All : bits[i]}
@@ -100,15 +130,18 @@ TypeOK ==
   /\ woken \in BOOLEAN
   /\ pc \in {"idle", "scan"}
   /\ idx \in 0..5 /\ idx <= N
+  /\ needPoll \in BOOLEAN
 
 \* C01, core: whenever the combinator is parked (or has passed child i in its scan) and i's readiness bit is
 \* set - i.e. i's waker fired after i was last looked at - the waker of the most recent poll has been invoked
-NoLostWake == gen >= 0 => \A i \in Ch : (bits[i] /\ (pc = "idle" \/ i < idx)) => woken
+\* (unless the consumer is about to poll again anyway: needPoll)
+NoLostWake == (gen >= 0 /\ ~needPoll) => \A i \in Ch : (bits[i] /\ (pc = "idle" \/ i < idx)) => woken
 
 IndInv ==
   /\ TypeOK
   /\ count = Cardinality(SetBits)
   /\ (gen >= 0 => parent = gen) /\ (gen = -1 => parent = -1 /\ pc = "idle" /\ ~woken)
+  /\ (pc = "scan" => ~needPoll)
   /\ NoLostWake
 
 \* the initial predicate of the inductive-step check: any state satisfying IndInv
